@@ -634,11 +634,23 @@ func (ip *Interp) eval(e Expr, sc *scope) (Value, error) {
 		}
 		return v, nil
 	case MCall:
-		cur, err := ip.eval(x.Recv, sc)
-		if err != nil {
-			return nil, err
+		chain := x.Chain
+		var cur Value
+		var err error
+		if len(chain) > 0 && (chain[0].Fn == "自增" || chain[0].Fn == "自减") && isLvalue(x.Recv) {
+			// in-place numeric update: the stored number itself changes (and is the result)
+			cur, err = ip.selfAdd(x.Recv, chain[0], sc)
+			if err != nil {
+				return nil, err
+			}
+			chain = chain[1:]
+		} else {
+			cur, err = ip.eval(x.Recv, sc)
+			if err != nil {
+				return nil, err
+			}
 		}
-		for _, c := range x.Chain {
+		for _, c := range chain {
 			args, err := ip.evalArgs(c.Args, sc)
 			if err != nil {
 				return nil, err
@@ -972,4 +984,73 @@ func HasEffect(e Expr) bool {
 		return HasEffect(v.Recv) || HasEffect(v.Idx)
 	}
 	return false
+}
+
+func isLvalue(e Expr) bool {
+	switch e.(type) {
+	case Name, Index, Member, ThisProp:
+		return true
+	}
+	return false
+}
+
+// selfAdd models 以‹place›（自增：n） / （自减：n）: the number stored at ‹place› is changed in
+// place. Places whose storage may be shared with another name in ways the statements leave
+// open (parameters, loop variables, 得到 names, predefined values) are unspecified.
+func (ip *Interp) selfAdd(place Expr, c CallPart, sc *scope) (Value, error) {
+	if n, ok := place.(Name); ok {
+		if isPredefined(n.N) {
+			panic(&Unspec{"自增 on a predefined value"})
+		}
+		if b, _ := ip.lookupLexical(sc, n.N); b != nil {
+			switch b.kind {
+			case "param", "loop", "yield", "import":
+				panic(&Unspec{"in-place update through a " + b.kind + " name (U2)"})
+			}
+		}
+	}
+	cur, err := ip.eval(place, sc)
+	if err != nil {
+		return nil, err
+	}
+	old, ok := cur.(VNum)
+	if !ok {
+		// not a number: fall back to the ordinary method dispatch (unknown method etc.)
+		args, err := ip.evalArgs(c.Args, sc)
+		if err != nil {
+			return nil, err
+		}
+		return ip.invoke(cur, c.Fn, args)
+	}
+	args, err := ip.evalArgs(c.Args, sc)
+	if err != nil {
+		return nil, err
+	}
+	if len(args) != 1 {
+		return nil, ip.memberErr("arity", c.Fn)
+	}
+	d, ok := args[0].(VNum)
+	if !ok {
+		return nil, ip.memberErr("type", c.Fn)
+	}
+	nv := old + d
+	if c.Fn == "自减" {
+		nv = old - d
+	}
+	// store back without the copy / constness rules of assignment: it is the same number
+	switch t := place.(type) {
+	case Name:
+		b, _ := ip.lookupLexical(sc, t.N)
+		if b == nil {
+			return nil, ip.fault(&ZErr{Code: 42, Kind: "name-undefined", Msg: t.N})
+		}
+		ip.checkOwner(b, sc, t.N)
+		b.v = nv
+	default:
+		_, err := ip.evalAssign(Assign{Target: place, Val: Num{V: float64(nv)}}, sc)
+		if err != nil {
+			return nil, err
+		}
+	}
+	return nv, nil
 }
